@@ -78,9 +78,20 @@ Lemma chunks_spec rs p : 1 <= rs -> p <> [] ->
   Shape rs false (chunks rs p) /\ List.concat (chunks rs p) = p /\ chunks rs p <> [].
 Proof.
   intros Hrs NE. unfold chunks.
-  assert (Hn : (1 <= N.to_nat rs)%nat) by lia.
-  destruct (chunks_fuel_spec _ Hn (List.length p) p NE (le_n _)) as [S R].
-  rewrite N2Nat.id in S. split; assumption.
+  assert (Lp : (1 <= List.length p)%nat).
+  { destruct p; [congruence|cbn [List.length]; lia]. }
+  destruct (N.le_gt_cases rs (N.of_nat (List.length p))) as [Le|Gt].
+  - rewrite N.min_l by exact Le.
+    assert (Hn : (1 <= N.to_nat rs)%nat) by lia.
+    destruct (chunks_fuel_spec _ Hn (List.length p) p NE (le_n _)) as [S R].
+    rewrite N2Nat.id in S. split; assumption.
+  - rewrite N.min_r by lia. rewrite Nat2N.id.
+    destruct (List.length p) as [|f] eqn:El; [lia|].
+    cbn [chunks_fuel]. rewrite El, Nat.leb_refl.
+    split; [|split].
+    + apply ShLast; [rewrite lenN_length; lia|]. intros C. congruence.
+    + cbn [List.concat]. apply app_nil_r.
+    + discriminate.
 Qed.
 
 (* the records of any payload: shape, concatenation, count *)
